@@ -41,17 +41,23 @@ impl Arena {
         let align = align_of::<T>();
         let size = size_of::<T>();
 
-        let padding = (align - inner.offset % align) % align;
+        // the buffer itself is only byte-aligned: pad relative to the actual address
+        let addr = inner.current_buf.as_ptr() as usize + inner.offset;
+        let mut padding = (align - addr % align) % align;
         let new_offset = inner.offset + padding + size;
 
         if new_offset > inner.current_buf.len() {
             // double previous capacity
             let new_capacity = inner.current_buf.len() * 2;
-            // and make sure capacity is enough to hold at least a single T
-            let new_capacity = new_capacity.max(size);
+            // and make sure capacity is enough to hold at least a single T at any alignment
+            let new_capacity = new_capacity.max(size + align);
             let new_buf: Box<[MaybeUninit<u8>]> = Box::new_uninit_slice(new_capacity);
             let old_buf = std::mem::replace(&mut inner.current_buf, new_buf);
             inner.old_bufs.push(old_buf);
+            // allocation starts over at the beginning of the new buffer
+            inner.offset = 0;
+            let addr = inner.current_buf.as_ptr() as usize;
+            padding = (align - addr % align) % align;
         }
 
         let start = inner.offset + padding;
